@@ -679,9 +679,12 @@ func (f *Frugal) FindStruct(typ *Type) *Struct {
 		frugal = frugalInclude
 	}
 
-	for _, s := range frugal.Structs {
-		if paramName == s.Name {
-			return s
+	// A constant or default value can also be given to a union or an exception.
+	for _, structs := range [][]*Struct{frugal.Structs, frugal.Unions, frugal.Exceptions} {
+		for _, s := range structs {
+			if paramName == s.Name {
+				return s
+			}
 		}
 	}
 
